@@ -43,8 +43,17 @@ class Chain:
                 return r['script']
         raise ValueError('address %s is not an address of %s' % (address, network))
 
-    def fund(self, address, value, network, confirmed=True, n=None):
+    def fund(self, address, value, network, confirmed=True, n=None, same_tx_as=None):
+        """Create a UTXO. `same_tx_as` = an existing outpoint: the new output belongs to the same funding transaction
+        (same txid, next free output index, same height) - real funding transactions often pay a wallet more than once."""
         self.counter += 1
+        if same_tx_as is not None and same_tx_as in self.utxos:
+            txid = same_tx_as[0]
+            n = max(k[1] for k in self.utxos if k[0] == txid) + 1
+            h = self.utxos[same_tx_as]['height']
+            self.utxos[(txid, n)] = {'address': address, 'value': int(value), 'height': h, 'spent_by': None,
+                                     'script': self.script_for_address(address, network), 'network': network}
+            return txid, n
         txid = hashlib.sha256(b'vf-model-funding-%d' % self.counter).hexdigest()
         n = self.counter % 3 if n is None else n
         self.utxos[(txid, n)] = {'address': address, 'value': int(value), 'height': self.height if confirmed else 0,
